@@ -293,7 +293,11 @@ def analyse(rec):
     min_delta = None
     n_bumps = 0
     max_ratio = 1.0
+    gone = set((ro or {}).get("disconnected_txids") or [])
     for key, d in per_set.items():
+        if any(op.split(":")[0] in gone for op in key[1:]):
+            # the transaction these claims spend was reorganised out and confirmed again: the claim was made afresh
+            continue
         seq = sorted(d.values(), key=lambda x: (x[0], x[1]["feerate"]))
         amt = sum(i["value"] for i in seq[0][1]["inputs"])
         for (h1, t1), (h2, t2) in zip(seq, seq[1:]):
@@ -404,7 +408,9 @@ def analyse(rec):
     for t in btx.values():
         for i in t["inputs"]:
             pt, v = i["prev"].rsplit(":", 1)
-            if pt == ctxid or pt in a_htlc:
+            if pt == ctxid or (pt in a_htlc and (not fc or pt in conf_h)):
+                # (claims on a cheater transaction that a reorganisation removed for good do not count: on the
+                # final chain there is nothing to claim there)
                 b_first.add((it(pt), int(v)))
     case = {"expr": expr, "b_spent": sorted(b_first), "o": [(it(ctxid), v) for v in o_impl],
             "second": [(it(h), i) for h, i, _ in second_stage]}
